@@ -23,8 +23,8 @@
 (* and FloatDenoteHex is an error of the SPECIFICATION (SPECDIFF line,     *)
 (* exit 2 in the harness), never a verdict about the code.                 *)
 (*                                                                         *)
-(* Rows are judged chunk by chunk: stage 0 -> a chunk is chosen -> its rows *)
-(* are read -> they are judged: one line is printed per failing row        *)
+(* Rows are judged chunk by chunk: stage 0 -> a chunk is chosen -> its     *)
+(* rows are read -> they are judged: one line is printed per failing row   *)
 (*   "BAD|id|law|class of input|class of output|fields changed|"           *)
 (* and one line "CHUNK|chunk|rows judged|rows failing|" per chunk.         *)
 (* All failing rows are listed, so that each can be classified.            *)
